@@ -209,3 +209,18 @@ Proof.
     induction a as [|x a IH]; intros [|y b] H; cbn [zlist_eqb] in H; try discriminate; [reflexivity|].
     apply andb_true_iff in H; destruct H as [Hx Hr]. apply Z.eqb_eq in Hx. subst. f_equal. apply IH; exact Hr.
 Qed.
+
+(* hilbert.place with its default vertex order (breadth_first=True): the same function's order and the Hilbert chip
+   order -- again no premise on the order is left. *)
+Theorem hilbert_bf_place_sound : forall pick arr vr nets m cs pl,
+    pick_ok pick -> arr_ok arr -> NoDup (map fst vr) ->
+    wf_problem vr m cs -> consistent cs ->
+    hilbert_place vr m cs (Some (bf_order pick arr nets (map fst vr))) = Ok pl ->
+    Feasible vr m cs pl.
+Proof.
+  intros pick arr vr nets m cs pl Hp Ha Hnd Hwf Hc H.
+  unfold hilbert_place in H.
+  eapply seq_place_sound; [exact Hwf | exact Hc | | exact H].
+  intros vo Hvo v Hv. inversion Hvo; subst.
+  apply (bf_order_exact pick arr nets (map fst vr) Hp Ha Hnd); exact Hv.
+Qed.
